@@ -137,10 +137,38 @@ def js_features(h, skind):
     f = set(L.c03_classes(h[3:]))
     if code_order_globals(h[3:]):
         f.add("F120")
+    def kept(a):      # object indices the JavaScript keeps: numbers, locals, parameters
+        return isinstance(a, list) and a and (a[0] in ("i", "f") or (a[0] in ("l", "p") and a[1] != "me"))
     for t in L.walk(h[3:]):
+        if len(t) >= 3 and t[0] in ("m", "mcall") and isinstance(t[1], list) and t[1][0] == "g":
+            f.add("F129")
+        if len(t) >= 3 and t[0] in ("with", "in") and isinstance(t[1], list) and t[1][0] in ("g", "r"):
+            f.add("F130")
         if len(t) >= 4 and t[0] == "the" and t[1] in L.OBJ_TABLES:
-            if any(isinstance(a, list) and a and a[0] == "s" for a in t[3:3 + L.OBJ_TABLES[t[1]]]):
+            if any(not kept(a) for a in t[3:3 + L.OBJ_TABLES[t[1]]]):
                 f.add("F20")
+        if len(t) >= 4 and t[0] == "set" and isinstance(t[1], list) and t[1][:2] == ["the", "field"] and not kept(t[1][3]):
+            f.add("F20")
+        if len(t) == 3 and t[0] == "set" and isinstance(t[1], list) and t[1][0] == "mov" and t[1][1] in ("frameLabel", "updateMovieEnabled"):
+            f.add("F127")
+        if len(t) == 4 and t[0] == "put":
+            # the `.text` of a put target is inserted by a regular expression over the generated text
+            tgt = t[3]
+            b = tgt
+            inner_fields = False
+            while isinstance(b, list) and b and b[0] == "ch":
+                if any(isinstance(x, list) and x and x[0] == "fld" for c in (b[2], b[3]) for x in L.walk(c)):
+                    inner_fields = True
+                b = b[4]
+            if isinstance(b, list) and b and b[0] == "fld":
+                idx = b[1]
+                simple = isinstance(idx, list) and idx and idx[0] in ("i", "f", "l", "p", "g", "r", "key", "mov") or idx == "me"
+                if isinstance(idx, list) and idx[:2] in (["the", "sys"],) or (isinstance(idx, list) and idx[0] == "the" and idx[1] == "special" and len(idx) == 3 and idx[2] < 6):
+                    simple = True
+                if not simple or inner_fields:
+                    f.add("F128")
+            elif inner_fields:
+                f.add("F128")
     for t in L.walk(h[3:]):
         if len(t) < 2 or not isinstance(t[0], str):
             continue
